@@ -211,9 +211,11 @@ structure Accepted where
   deflate : Option DeflateCfg
   deriving Repr, DecidableEq
 
-/-- `WebSocket.on_response`.  `challenge` is `b64encode(sha1(key + WS_KEY))` (a parameter:
-    SHA-1/base64 are not modelled).  `strictAccept` selects an exact comparison instead of the
-    case-insensitive one the code performs.  Error = HandshakeError text. -/
+/-- `WebSocket.on_response`.  `challenge` is `b64encode(sha1(self.key + WS_KEY).digest()).decode('ascii')`:
+    the handshake model computes it from the key of the attempt (`Handshake.acceptFor`,
+    `Handshake.nthOnResponse`, `Handshake.cfgOfRequest`; SHA-1 is `Model/Sha1.lean`) and hands it in here,
+    so that this file and `Core.lean` stay independent of the hash.  `strictAccept` selects an exact
+    comparison instead of the case-insensitive one the code performs.  Error = HandshakeError text. -/
 def onResponse (strictAccept : Bool) (challenge : Str) (r : Response) : Except Str Accepted :=
   if r.statusCode ≠ some (false, 101) then
     .error (ofString ("Websocket upgrade failed (code=" ++ showStatus r.statusCode ++ ")"))
